@@ -34,7 +34,11 @@ class Ob:
     def setup(self, w):
         return {}
 
-    def claims(self, w, S, P):
+    def parts(self, w):
+        """independent groups of claims (explored separately, e.g. one per axis)"""
+        return [None]
+
+    def claims(self, w, S, P, part=None):
         raise NotImplementedError
 
     def region(self, w):
@@ -111,9 +115,9 @@ def run_symbolic(ob, grid, timeout_ms=20000, max_leaves=3000):
             except NeedSplit:
                 S0 = None
 
-            def leaf_fn():
+            def leaf_fn(part):
                 S = S0 if S0 is not None else ob.setup(w)
-                cl = ob.claims(w, S, w.P)
+                cl = ob.claims(w, S, w.P, part)
                 labels = [c[0] for c in cl]
                 exprs = [resolve_ints(B.of(c[1])) for c in cl]
                 exprs, groups = canonicalize(exprs)
@@ -123,7 +127,9 @@ def run_symbolic(ob, grid, timeout_ms=20000, max_leaves=3000):
                 ob.hyps(w, groups, apps, hy)
                 hy = [resolve_ints(B.of(h)) for h in hy]
                 return labels, exprs, hy
-            leaves = explore(leaf_fn, base=tuple(ob.region(w)), max_leaves=max_leaves)
+            leaves = []
+            for part in ob.parts(w):
+                leaves += explore((lambda part=part: leaf_fn(part)), base=tuple(ob.region(w)), max_leaves=max_leaves)
             out['nleaves'] = len(leaves)
             worst = 'proved'
             for conds, (labels, exprs, hy) in leaves:
@@ -191,9 +197,10 @@ def run_native(ob, grid, sizes, seed, partial=None, points=None):
     bad = []
     pts = points if points is not None else ob.points(w)
     for P in pts:
-        for label, ok in ob.claims(w, S, tuple(P)):
-            if not ok:
-                bad.append((label, tuple(P)))
+        for part in ob.parts(w):
+            for label, ok in ob.claims(w, S, tuple(P), part):
+                if not ok:
+                    bad.append((label, tuple(P)))
     return bad, w
 
 
@@ -236,8 +243,10 @@ def conformance(ob, grid, sizes, seed):
     nd = GRIDS[grid]['nd']
     with installed():
         ws = SymWorld(grid)
+        ws.choice_rng = random.Random(seed)
         Ss = ob.setup(ws)
     wr = RealWorld(grid, sizes, seed=seed)
+    wr.choice_rng = random.Random(seed)
     Sr = ob.setup(wr)
     sizes3 = list(sizes) + [1] * (3 - len(sizes))
     env = Env(sizes3, wr.src.values)
